@@ -58,7 +58,14 @@ var specs = map[string]*PropSpec{
 		Rule: "one run = one generated CBE/CTE document after 0-4 storage faults (bit/byte flips, zeroed/duplicated ranges, truncation, misdirected or inserted bytes, overwritten length fields, garbage, empty) or a deep-nesting document, fed to every decode/unmarshal entry point that accepts it (from memory and through a SimReader delivery plan; occasionally to the other format's entry points) with a drawn template (nil, typed, unsupported kinds) and configuration, plus four marshal entry points on a drawn Go value (supported or containing chan/func/complex/unsafe.Pointer). Oracle: call returns within the watchdog, no panic escapes, the memory-capped worker stays alive. Non-trivial = the document was faulted or deep, or delivery was through a drawn reader plan, or a marshal call; distinct = hash of (document, entry, template, plan | value type, entry, config)",
 		Stubs: []string{"SimReader", "SimWriter (io.Writer and io.Writer+io.StringWriter flavours)", "SimDisk storage-fault model"}, Real: commonReal,
 		StepKeys: []string{"reader_calls", "writer_calls"},
-		Assumptions: []string{"watchdog is wall-clock: 10 s (quick) / 30 s (thorough) per library call whose normal cost is < 10 ms; worker address space capped at 8 GiB"},
+		Assumptions: []string{"watchdog is wall-clock: 10 s (quick) / 30 s (thorough) per library call whose normal cost is < 10 ms; worker address space capped at 3 GiB"},
+	},
+	"C08": {
+		Level: "exploration", QuickRuns: 30000, ThorRuns: 1000000, QuickCap: 150 * time.Second, ThorCap: 25 * time.Minute, QuickWD: 10000, ThorWD: 30000,
+		Rule: "one run = one measured decode: a document from an adversarial family - a short CBE document built around one length-carrying header (string/typed/bit/uint8 array, resource id, media type length, media data, custom type, big-integer byte count, identifier lengths, chains of continued zero-length chunks) announcing 2^8..2^62 while delivering < 24 bytes; a generated document whose known length fields were overwritten in storage; a container run of 100-2500 levels; a growing benign family - x entry point (decode/unmarshal, reader or from memory) x MaxArraySizeBytes in {64, 1Ki, 64Ki, 1Mi, default} x rules on/off x template. Measured: runtime.MemStats.TotalAlloc around exactly that call in an otherwise idle, address-space-capped worker. Oracle: alloc <= 2*base + 4 MiB + K*len(doc) + 8*MaxArraySizeBytes(when rules are on), base = the same entry point on a minimal document measured in the same process, K = 4096 (CBE) / 16384 (CTE), K validated at worker start by a calibration that requires benign families to sit 10x below the budget (else exit 2); plus the work-step bound reader calls + events <= 8*len+64. Non-trivial = corrupted, adversarial or container-run document; distinct = hash of (document, entry, config, template)",
+		Stubs: []string{"SimDisk storage-fault model (length-field aware)", "SimReader"}, Real: commonReal,
+		StepKeys:    []string{"work_steps", "measured_decodes"},
+		Assumptions: []string{"the CPU-time clause of the property is NOT decided (deterministic simulation does not measure CPU seconds); the work-step bound only catches re-reading and event amplification", "the bound is read in its weaker grouping: fixed multiple of (length + maximum array size)"},
 	},
 	"C09": {
 		Level: "fault_enumeration", QuickRuns: 5000, ThorRuns: 150000, QuickCap: 150 * time.Second, ThorCap: 25 * time.Minute, QuickWD: 10000, ThorWD: 30000,
